@@ -947,6 +947,7 @@ fn sink_main(plan: &J, hist: History) {
         let hist = hist.clone();
         move |h: &Arc<detsim::sync::Mutex<H>>, id: u64| {
             hist.log(K::AppendBegin { id });
+            crate::driver::IN_APPEND.fetch_add(1, std::sync::atomic::Ordering::SeqCst);
             let r = std::panic::catch_unwind(std::panic::AssertUnwindSafe(|| {
                 // take a cheap handle without holding our own lock across the append
                 enum C {
@@ -965,14 +966,27 @@ fn sink_main(plan: &J, hist: History) {
                     C::Queue(q) => q.append(IdEntry(id)),
                 }
             }));
+            crate::driver::IN_APPEND.fetch_sub(1, std::sync::atomic::Ordering::SeqCst);
             hist.log(K::AppendEnd { id, blocked: false, panicked: r.is_err() });
         }
     };
+    let reentrant = jb(plan, "reentrant_subscriber", false);
     let mut ts = vec![];
     for t in 0..nthreads {
         let h2 = h.clone();
         let ap = append.clone();
         ts.push(detsim::thread::spawn_named(&format!("p{}", t + 1), move || {
+            // plan key `reentrant_subscriber`: this thread's tracing subscriber turns every warning / error event into
+            // a metric entry of its own, appended to the *same* sink (an "errors seen" metric): whatever the sink
+            // reports while it handles an entry comes back to it as another append, on the same thread
+            let _scoped = reentrant.then(|| {
+                let (h3, ap3) = (h2.clone(), ap.clone());
+                let n = std::sync::atomic::AtomicU64::new(0);
+                tracing::dispatcher::set_default(&tracing::Dispatch::new(ReentrantSubscriber(Box::new(move || {
+                    let k = n.fetch_add(1, std::sync::atomic::Ordering::SeqCst);
+                    ap3(&h3, entry_id(50 + t + 1, k));
+                }))))
+            });
             for s in 0..per {
                 ap(&h2, entry_id(t + 1, s));
                 detsim::yield_point();
@@ -988,6 +1002,25 @@ fn sink_main(plan: &J, hist: History) {
         _ => None,
     };
     drop(j);
+}
+
+/// A subscriber that reacts to warning / error events by calling back into the application (tracing itself keeps the
+/// events raised *inside* the callback away from it, so there is no recursion).
+struct ReentrantSubscriber(Box<dyn Fn() + Send + Sync>);
+impl tracing::Subscriber for ReentrantSubscriber {
+    fn enabled(&self, metadata: &tracing::Metadata<'_>) -> bool {
+        metadata.is_event() && *metadata.level() <= tracing::Level::WARN
+    }
+    fn new_span(&self, _span: &tracing::span::Attributes<'_>) -> tracing::span::Id {
+        tracing::span::Id::from_u64(1)
+    }
+    fn record(&self, _span: &tracing::span::Id, _values: &tracing::span::Record<'_>) {}
+    fn record_follows_from(&self, _span: &tracing::span::Id, _follows: &tracing::span::Id) {}
+    fn event(&self, _event: &tracing::Event<'_>) {
+        (self.0)()
+    }
+    fn enter(&self, _span: &tracing::span::Id) {}
+    fn exit(&self, _span: &tracing::span::Id) {}
 }
 
 /// One stream: every appended entry exactly once, per-producer order, no panicking append.
@@ -1162,6 +1195,7 @@ impl Scenario for SinkFaults {
             "script_a": a, "script_b": b,
             "flush_fail": if rng.chance(0.3) { json!([rng.below(4), rng.below(9)]) } else { json!([]) },
             "flush_interval_ns": *rng.pick(&[50_000u64, 5_000_000, 1_000_000_000]),
+            "reentrant_subscriber": mix(ju(&sched, "seed", 0), 0x5ab) % 4 == 0,
         })
     }
     fn run(&self, plan: &J) -> Report {
